@@ -31,6 +31,9 @@ def configs(tier, seed):
            dict(name="screen after Plate.merge", h="merged", rows=6),
            dict(name="screen r=3 a=2 mappings of 300 entries (ids past 256 in use)", h="screen", rows=3, arity=2, extra=0, cycles=2, treat=C, samples=C,
                 plates="each", big_map=300),
+           # explicit mappings that list exactly the rows' samples / conditions, with ids in reverse name order
+           dict(name="screen r=3 a=2 explicit mappings over exactly the rows' entities, ids not in name order", h="screen", rows=3, arity=2,
+                extra=0, cycles=2, treat=C, samples=C, plates="each", big_map=0),
            # every observation independently finite / NaN / +inf / -inf / -0.0, observed or not (three plates)
            dict(name="screen r=3 a=1 observation values of every float class", h="screen", rows=3, arity=1, extra=0, cycles=2, treat=C, samples=C,
                 plates="each", special=True)]
@@ -97,7 +100,7 @@ def _build(ctx, data, cfg):
         big = data.Screen(treatment_names=np.array(tn), treatment_doses=np.array(td, dtype=float),
                           sample_names=np.array(sn), plate_names=np.array(pn), control_treatment_name=ctrl)
         kw = dict(treatment_mapping=big.treatment_mapping, sample_mapping=big.sample_mapping)
-    if cfg.get("big_map"):
+    if "big_map" in cfg:
         # id spaces far larger than the rows (ids past 255 / 256 in use by the rows): explicit dense mappings
         N = cfg["big_map"]
         snames = sorted(set(sn[:R])) + ["zs%03d" % i for i in range(N)]
